@@ -44,6 +44,8 @@ fn main() {
         "prog-fault" => streams::prog_faulty(&mut rng, count, "fault", &mut emit),
         "yo" => streams::yo(&mut rng, count, false, &mut emit),
         "yo-malformed" => streams::yo(&mut rng, count, true, &mut emit),
+        "table" => streams::table(&mut rng, count, &mut emit),
+        "options" => streams::options(&mut rng, count, &mut emit),
         "dump" => streams::dump(&mut rng, count, &mut emit),
         "disasm" => streams::disasm(&mut rng, count, &mut emit),
         "trace" => streams::trace(&mut rng, count, &mut emit),
